@@ -41,19 +41,21 @@ Proof. exact dfs_goal_in_closed. Qed.
 Print Assumptions C09_proven_goal_in_closure.
 
 (** BOUNDED COMPLETENESS of the default depth-first strategy, for every Horn instance of any size: rules with
-    conjunctive conditions ([conj]) made of positive comparisons ([horn]) against boolean / string / null literals
-    ([gnonnum]; nesting of && at most 62, so that the model's recursion fuel provably suffices), over facts and rule
+    conjunctive conditions ([conj]) made of positive comparisons ([horn]) against literals that survive the code's
+    re-parsing of sub-goal patterns ([glit_ok]: any boolean / string / null literal; an integer literal z with
+    f_to_i64 (f_of_Z z) = z - a decidable condition, true of every |z| < 2^53 - against an integer-valued field; a float
+    literal against a field that is not integer-valued; nesting of && at most 62, so that the model's recursion fuel
+    provably suffices), over facts and rule
     conclusions that give every field a single value (the premise on f0 ++ all conclusions), scalar values.
     If the goal holds at level h <= max_depth of the bounded forward derivation ([level h]: h rounds of firing every
     rule whose conditions hold) - i.e. it has a derivation of height at most max_depth - the search reports it provable,
     whatever decoy candidates, dead ends, shared sub-goals and cycles the rule set contains.
-    Partial w.r.t. the monitor, which also covers integer comparisons in rule conditions (the reparsing of integer
-    literals through f64 is not covered by this theorem). *)
+    Partial only in that the hypotheses exclude mixed integer / float comparisons and Or in rule conditions. *)
 Theorem C09_bounded_completeness_partial : forall rules max_depth f0,
   flat f0 -> horn rules ->
   (forall k v v', In (k, v) (f0 ++ flat_map br_sets rules) -> In (k, v') (f0 ++ flat_map br_sets rules) -> v = v') ->
   (forall r, In r rules -> conj (br_cond r) = true) ->
-  (forall r, In r rules -> gnonnum (br_cond r) = true) ->
+  (forall r, In r rules -> glit_ok (f0 ++ flat_map br_sets rules) (br_cond r)) ->
   (forall r, In r rules -> (gdepth (br_cond r) <= 62)%nat) ->
   forall goal h, positive_op (b_op goal) = true -> Z.of_nat h <= max_depth ->
     goal_holds (level h rules f0) goal = true -> fst (dfs rules max_depth goal f0) = true.
@@ -86,7 +88,7 @@ Example C09_completeness_example :
   let rules := ex9_rules 8 in let f0 := [(ex9_f1, VBool true)] in
   flat f0 /\ horn rules
   /\ (forall k v v', In (k, v) (f0 ++ flat_map br_sets rules) -> In (k, v') (f0 ++ flat_map br_sets rules) -> v = v')
-  /\ (forall r, In r rules -> conj (br_cond r) = true /\ gnonnum (br_cond r) = true /\ (gdepth (br_cond r) <= 62)%nat)
+  /\ (forall r, In r rules -> conj (br_cond r) = true /\ glit_ok (f0 ++ flat_map br_sets rules) (br_cond r) /\ (gdepth (br_cond r) <= 62)%nat)
   /\ goal_holds (level 2 rules f0) ex9_goal = true.
 Proof.
   cbv zeta. split; [|split; [|split; [|split]]].
@@ -94,6 +96,21 @@ Proof.
   - intros r [<-|[<-|[]]]; (split; [reflexivity|intros kv [<-|[]]; exact I]).
   - intros k v v' H1 H2. cbn in H1, H2.
     destruct H1 as [H1|[H1|[H1|[]]]]; destruct H2 as [H2|[H2|[H2|[]]]]; inversion H1; inversion H2; subst; try reflexivity; discriminate.
-  - intros r [<-|[<-|[]]]; (split; [reflexivity|split; [reflexivity|cbn; lia]]).
+  - intros r [<-|[<-|[]]]; (split; [reflexivity|split; [exact I|cbn; lia]]).
   - vm_compute. reflexivity.
+Qed.
+
+(** ... also with an integer comparison in a rule condition: F3 == 8 (re-parsed by the code as 8.0 and adapted back) *)
+Definition ex9_rules_int : list brule :=
+  ex9_rules 8 ++ [ {| br_cond := BSingle {| b_field := ex9_f3; b_op := OEq; b_val := VInt 8 |}; br_sets := [([70; 52], VBool true)] |} ].
+Example C09_completeness_example_int :
+  let rules := ex9_rules_int in let f0 := [(ex9_f1, VBool true)] in
+  (forall r, In r rules -> glit_ok (f0 ++ flat_map br_sets rules) (br_cond r))
+  /\ goal_holds (level 3 rules f0) {| b_field := [70; 52]; b_op := OEq; b_val := VBool true |} = true
+  /\ fst (dfs rules 3 {| b_field := [70; 52]; b_op := OEq; b_val := VBool true |} f0) = true.
+Proof.
+  cbv zeta. split; [|split; vm_compute; reflexivity].
+  intros r [<-|[<-|[<-|[]]]]; cbn [glit_ok br_cond lit_ok b_val b_field]; try exact I.
+  split; [vm_compute; reflexivity|]. split; [vm_compute; reflexivity|].
+  intros v H. cbn in H. destruct H as [H|[H|[H|[H|[]]]]]; inversion H; subst; try discriminate. eexists. reflexivity.
 Qed.
